@@ -26,7 +26,7 @@ MANIFEST = dict(
 
 DEVS = ["Dev_RevertVersionGapPanics", "Dev_UndoFirstEquityPanics", "Dev_UndoCodeDropsPreviousCode",
         "Dev_UndoSuicideShallow", "Dev_UndoEventNoop", "Dev_MergeAcrossSuicide", "Dev_WorthlessSuicideDropped",
-        "Dev_RevertedCreationLeavesEmptyRoot"]
+        "Dev_EmptyWriteLeavesEmptyRoot", "Dev_SaveFailsOnDirtyEmptyCode", "Dev_UndoAssetProfileKeyLeavesEmptyEntry"]
 
 
 def setcfg(ctx, cfg, out, **kv):
@@ -38,6 +38,8 @@ def setcfg(ctx, cfg, out, **kv):
 
 
 def run(ctx):
+    # up to 16 small TLC runs side by side: keep the JVMs small (the biggest trace validation needs < 2 GB)
+    __import__("os").environ.setdefault("VERIF_TLC_HEAP", "3g")
     ctx.build()
     quick = ctx.quick()
     depth = dict(Contract=4, Hold=4, Asset=4, Cand=3, Two=4, Nest=8) if quick else dict(Contract=5, Hold=5, Asset=5, Cand=4, Two=5, Nest=10)
@@ -59,7 +61,7 @@ def run(ctx):
         time.sleep(0.1 * (i + len(depth)))
         gap = dev == "Dev_RevertVersionGapPanics"
         cfg = setcfg(ctx, "MCJournal_Neg.cfg", "MCJournal_Neg.%s.cfg" % dev,
-                     **{"@DEV@": dev, "@KINDS@": "KindsNegGap" if gap else "KindsNeg", "@STEPS@": 7 if gap else 5})
+                     **{"@DEV@": dev, "@KINDS@": "KindsNegGap" if gap else "KindsNegAsset" if "AssetProfile" in dev else "KindsNeg", "@STEPS@": 7 if gap else 5})
         r = ctx.tlc("MCJournal", cfg, timeout=600, expect_ok=False, workers=2)
         return dev, r["inv"]
 
